@@ -27,6 +27,7 @@
    Errors: ConfigError::EncryptionKeyIsMissing, PrivateKeyNotSet, PrivateKeyNotFound -> EKey;
    IncoherentPersistentConfig -> EInval; SerializationError / DeserializationError -> EDeser.
    Definitions only; proofs in ArchiveProofs.v. *)
+From MLA Require Import Limit.
 From MLA Require Import Base Stream EncLayer CompLayer RawLayer CompWriterProofs LayerStack
   Blocks Writer Reader EncWriter Format Ecies RoundTripWriter RoundTripReader.
 From Coq Require Import Permutation.
@@ -54,6 +55,7 @@ Fixpoint first_bad (rs : list (res N)) : res unit :=
 
 Section Archive.
   Variables CHUNK TAG CIPHERBUF BLOCK LIMIT FNMAX : N.
+  Local Hint Extern 0 Limit => exact LIMIT : typeclass_instances.
   Variables TS TC TA TE : N.
   Variable H : bytes -> bytes.
   Variable order : footer -> footer.
